@@ -14,6 +14,46 @@ DEV_EDITS = [('display_name', ['Dev', 'Hall', 'x']), ('timezone', ['Europe/Paris
              ('admin_password', ['secret'])]
 
 
+# C13-offline-write-over-unread-queue: the hub reads ONE queued remote value per tick (50 ms) and a listening slave is
+# declared offline after retry_count * retry_interval = 15 s = 300 ticks: a backlog of more than BACKLOG values received
+# in one listen batch right before an outage is still partly unread when the user writes through the master
+BACKLOG = 300
+
+
+def backlog_witness():
+    steps = [['check']] + [['rvalue', 'p1', 7 if i % 2 == 0 else 8] for i in range(400)] + [['rvalue', 'p1', 7]]
+    steps += [['wait', 0.08], ['down'], ['await_offline'], ['mvalue', 'p1', 42], ['wait', 30], ['up'], ['await_online'],
+              ['check']]
+    return {'mode': 'listen', 'latency': 0.01, 'fail': 'refused', 'poll': 2, 'ports': [
+        {'id': 'p1', 'type': 'number', 'value': 5, 'writable': True, 'enabled': True}], 'steps': steps}
+
+
+def backlog_written_ports(case):
+    """Ports that got >= BACKLOG remote value changes within < 1 s right before a 'down' (no check in between) and are
+    written through the master during that outage."""
+    out = set()
+    steps = case['steps']
+    for i, st in enumerate(steps):
+        if st[0] != 'down':
+            continue
+        counts, waited = {}, 0.0
+        for prev in reversed(steps[:i]):
+            if prev[0] == 'wait':
+                waited += prev[1]
+                if waited >= 1:
+                    break
+            elif prev[0] == 'rvalue':
+                counts[prev[1]] = counts.get(prev[1], 0) + 1
+            else:
+                break
+        for nxt in steps[i + 1:]:
+            if nxt[0] == 'up':
+                break
+            if nxt[0] == 'mvalue' and counts.get(nxt[1], 0) >= BACKLOG:
+                out.add(nxt[1])
+    return out
+
+
 def base_ports(rng, n):
     ports = []
     for i in range(n):
@@ -50,7 +90,10 @@ class C13(Prop):
                    'itself loses the edit: apply_provisioning clears the pending sets whatever the outcome)',
                    'master restarts are generated only while device-level edits (device attributes, webhooks, reverse) '
                    'are pending: a restart while PORT edits are pending loses them (known finding C13-restart-port-edits)',
-                   'request latency below the request timeouts']
+                   'request latency below the request timeouts',
+                   'the hub has read out every remote value it received before the user writes a value for an offline '
+                   'slave (generated value changes are far slower than one per 50 ms tick for 15 s): a write over an unread '
+                   'backlog is replaced by a queued slave value (known finding C13-offline-write-over-unread-queue)']
 
     def setup(self):
         from harness.simslave_c12 import Hub
@@ -115,6 +158,10 @@ class C13(Prop):
         out.append({'mode': 'listen', 'latency': 0.01, 'fail': 'refused', 'poll': 2, 'ports': one, 'steps': [
             ['down'], ['await_offline'], ['mattr', 'p1', 'display_name', 'edited'], ['mvalue', 'p1', 42], ['wait', 3],
             ['restart'], ['wait', 5], ['up'], ['await_online'], ['check']]})
+        # KNOWN FINDING C13-offline-write-over-unread-queue (Lean: offline_write_over_unread_queue_is_lost): 401 remote
+        # values in one listen batch, outage, the user writes 42 while ~90 of them are still unread: the next ticks read
+        # them INTO the value kept for the push; the reconnect pushes the slave's own 7 instead of 42
+        out.append(backlog_witness())
         return out
 
     def gen(self, rng, tier):
@@ -239,8 +286,9 @@ class C13(Prop):
     def shrink_candidates(self, case):
         steps = case['steps']
         keep = ('down', 'await_offline', 'up', 'await_online')
+        backlog = backlog_written_ports(case)       # a backlog burst is one unit: not thinned out value by value
         for i, st in enumerate(steps):
-            if st[0] in keep:
+            if st[0] in keep or (st[0] == 'rvalue' and st[1] in backlog):
                 continue
             yield dict(case, steps=steps[:i] + steps[i + 1:])
         if len(case['ports']) > 1:
@@ -271,6 +319,13 @@ class C13(Prop):
         return fail, {'tags': sorted(tags), 'key': key, 'observed': observed}
 
     def known_match(self, finding, case, failure):
+        # C13-offline-write-over-unread-queue: the value written for an offline slave over an unread backlog of remote
+        # values of the same port; the slave then gets one of its own old values
+        if finding.get('id') == 'C13-offline-write-over-unread-queue':
+            if failure.kind != 'property' or failure.where not in ('value-pushed-once', 'kept'):
+                return False
+            ports = backlog_written_ports(case)
+            return any(f' of {p} ' in failure.detail for p in ports)
         # C13-restart-port-edits: a master restart between an accepted offline PORT edit and the reconnect; the edit is
         # then never pushed and stays reported as pending
         if finding.get('id') != 'C13-restart-port-edits' or failure.kind != 'property':
